@@ -797,6 +797,22 @@ impl<'tcx> Cx<'tcx> {
                     }
                     ConstValue::ZeroSized => o.set("zst", J::Bool(true)),
                     ConstValue::Indirect { alloc_id, offset } => {
+                        // a small byte array constant (`const TPID: [u8; 2] = [0x81, 0x00]`): dump its bytes
+                        if let TyKind::Array(elem, _) = cty.kind() {
+                            if matches!(elem.kind(), TyKind::Uint(rustc_middle::ty::UintTy::U8)) {
+                                if let GlobalAlloc::Memory(m) = tcx.global_alloc(alloc_id) {
+                                    let alloc = m.inner();
+                                    let off = offset.bytes() as usize;
+                                    if let Ok(layout) = tcx.layout_of(env.as_query_input(cty)) {
+                                        let n = layout.size.bytes() as usize;
+                                        if n <= 256 && alloc.len() >= off + n && alloc.provenance().ptrs().is_empty() {
+                                            let bytes = alloc.inspect_with_uninit_and_ptr_outside_interpreter(off..off + n);
+                                            o.set("bytes", J::Arr(bytes.iter().map(|b| J::Int(*b as i128)).collect()));
+                                        }
+                                    }
+                                }
+                            }
+                        }
                         // fat pointer (&[T] / &str) stored in memory: the length is the second word
                         if let TyKind::Ref(_, inner, _) = cty.kind() {
                             if inner.is_slice() || inner.is_str() {
